@@ -20,7 +20,7 @@ func Accepts(s string) bool {
 
 // ParseRef is the same recogniser returning the derivation it found. The
 // grammar is unambiguous once identifiers are taken maximally.
-func ParseRef(s string) (Route, bool) { return parseWith(s, false) }
+func ParseRef(s string) (Route, bool) { return parseWith(s, false, false) }
 
 // AcceptsDoc recognises the same grammar over the terminal classes exactly as
 // the README's BNF spells them: <char> without "$", and <any> = <char> plus
@@ -29,12 +29,24 @@ func ParseRef(s string) (Route, bool) { return parseWith(s, false) }
 // documentation contradicts itself (its second grammar refers to the lexer's
 // classes) and a parser may go either way.
 func AcceptsDoc(s string) bool {
-	_, ok := parseWith(s, true)
+	_, ok := parseWith(s, true, false)
 	return ok
 }
 
-func parseWith(s string, doc bool) (Route, bool) {
-	p := &rec{s: s, doc: doc}
+// AcceptsLoose recognises the README's second grammar read to the letter:
+// "BindParameters = (BindParameter ("," " "* BindParameter)*)+" lets a further
+// parameter follow without a comma (which can only be told apart behind a
+// regex value; the first grammar demands the comma). Either terminal alphabet.
+func AcceptsLoose(s string) bool {
+	if _, ok := parseWith(s, false, true); ok {
+		return true
+	}
+	_, ok := parseWith(s, true, true)
+	return ok
+}
+
+func parseWith(s string, doc, loose bool) (Route, bool) {
+	p := &rec{s: s, doc: doc, loose: loose}
 	var r Route
 	for {
 		seg, ok := p.segment()
@@ -75,9 +87,10 @@ func IsRegexChar(c byte) bool {
 }
 
 type rec struct {
-	s   string
-	i   int
-	doc bool // terminal classes of the README's BNF instead of the lexer's
+	s     string
+	i     int
+	doc   bool // terminal classes of the README's BNF instead of the lexer's
+	loose bool // a parameter may follow a regex value without a comma
 }
 
 func (p *rec) identChar(c byte) bool {
@@ -177,9 +190,13 @@ func (p *rec) element() (Elem, bool) {
 			return e, true
 		}
 		if !p.eat(',') {
-			return Elem{}, false
+			if !(p.loose && isRe) {
+				return Elem{}, false
+			}
+			lead = 0
+		} else {
+			lead = p.blanks()
 		}
-		lead = p.blanks()
 		name, ok = p.ident()
 		if !ok {
 			return Elem{}, false
